@@ -483,8 +483,12 @@ def run_c02(ctx):
     rng = ctx.rng
     stage_batch = []
     sort_batch = []
+    noisy_batch = []
     for it in range(n):
         M, N, flavour, eps = gen_pair_equal(rng)
+        if (eps > 0 and "discontinuous" not in flavour and len(M["pts"]) <= 24
+                and len(noisy_batch) < (60 if q else 1500)):
+            noisy_batch.append(({"source": json_mesh(M), "reference": json_mesh(N), "flavour": flavour}, M, N))
         canon = {"source": json_mesh(M), "reference": json_mesh(N), "flavour": flavour}
         nontrivial = sum(len(r) for _, r in M["blocks"]) >= 2
         try:
@@ -532,6 +536,7 @@ def run_c02(ctx):
         ctx.traces_validated += 1
     run_stage_batch(ctx, stage_batch)
     run_sort_checkers(ctx, sort_batch)
+    run_noisy_checkers(ctx, noisy_batch)
     ctx.rule = ("pairs (M, relabel(M)): random / reversed / swapped point order, shuffled cells within type, shuffled type blocks, "
                 "optional orphan points on either side, coincident points (discontinuous meshes), coordinate noise <= tol/2000 on "
                 "both sides; 1d/2d/3d and 2d-in-3d meshes of lines, triangles, quads, pixels, polygons, tets, hexes, voxels; "
@@ -565,6 +570,42 @@ Import ListNotations.
         if v is not True:
             ctx.violation("E3", f"sort_points does not arrange noise-free points in lexicographic order (index map {pid})", canon,
                           found_input=False)
+
+
+def cluster_boundaries(values, gap):
+    """boundaries strictly between clusters of nearly-equal values (consecutive sorted values further apart than `gap`)"""
+    vs = sorted(set(values))
+    return [(a + b) / 2 for a, b in zip(vs, vs[1:]) if b - a > gap]
+
+
+def run_noisy_checkers(ctx, batch):
+    """T3 (noisy data): the sorted views of both sides must meet the class-vector specification and its premises
+    (Model.FuzzySort.check_noisy_sorted, proved to imply pointwise closeness of the two point lists)"""
+    from fieldcompare.mesh import sort_points, strip_orphan_points
+    header = """From Coq Require Import QArith ZArith Arith Bool List.
+From FC Require Import Model.Scalar Model.Mesh Model.SortSpec Model.FuzzySort.
+Import ListNotations.
+"""
+    exprs, metas = [], []
+    for canon, M, N in batch:
+        with quiet():
+            warnings.simplefilter("ignore")
+            va = sort_points(strip_orphan_points(G.to_fieldcompare(M)))
+            vb = sort_points(strip_orphan_points(G.to_fieldcompare(N)))
+            A, B = G.from_fieldcompare(va), G.from_fieldcompare(vb)
+            rel, ab = tol_of(va)
+        gap = min(G.dyadic_tol(M), G.dyadic_tol(N)) / 16
+        bss = [cluster_boundaries([p[d] for p in A["pts"] + B["pts"]], gap) for d in range(M["dim"])]
+        Q = lambda x: lib.cqfrac(x)  # noqa: E731
+        P = lambda X: clist([clist([Q(x) for x in p], "Q") for p in X["pts"]], "point")  # noqa: E731
+        exprs.append(f"check_noisy_sorted {clist([clist([Q(b) for b in bs], 'Q') for bs in bss], '(list Q)')} {Q(rel)} {Q(ab)} {P(A)} {P(B)}")
+        metas.append(canon)
+    vals = ctx.coq_eval(header, exprs, name="noisychk", shard=100)
+    for canon, v in zip(metas, vals):
+        ctx.tie("T3 check_noisy_sorted on the sorted views of noisy pairs")
+        if v is not True:
+            ctx.violation("E3", "the sorted views of a noisy equal pair do not meet the class-vector sorting specification "
+                          "(check_noisy_sorted rejects them)", canon, found_input=False)
 
 
 def tuple_block(b):
